@@ -17,7 +17,7 @@ OUTSIDE = ['floating-point rounding (C18)', 'N above the caps', 'the variational
 def caps(tier):
     if tier == 'quick':
         return {'tall': {3: 5, 5: 3, 7: 2}, 'tgridN': 6, 'dims_all': (1,), 'dims_grid': (1, 2, 3), 'tline': {3: 6, 5: 4, 7: 3}, 'varN': 3}
-    return {'tall': {3: 6, 5: 4, 7: 3}, 'tgridN': 10, 'dims_all': (1, 2), 'dims_grid': (1, 2, 3, 4), 'tline': {3: 8, 5: 6, 7: 5}, 'varN': 5}
+    return {'tall': {3: 6, 5: 4, 7: 3}, 'tgridN': 10, 'dims_all': (1, 2), 'dims_grid': (1, 2, 3, 4), 'tline': {3: 8, 5: 6, 7: 4}, 'varN': 5}
 
 
 def bounds(tier):
